@@ -209,7 +209,9 @@ func VerifC06Conversation() {
 		maxMsgs = 4
 	}
 	nm := 2 + vrt_Choose("messages", maxMsgs-1)
-	pool := []uint16{0x0002, 0x0200, 0x0100, 0x0001, 0x0F0F}
+	// 0x0102s: a 2019-layout authentication whose body is too short for its fixed fields - handled,
+	// logged and not answered (by design); it must not consume a platform serial either
+	pool := []uint16{0x0002, 0x0200, 0x0100, 0x0001, 0x0F0F, 0x0102}
 	ev := &vRecorder{}
 	conn := vrt_NewTCPConn()
 	vrt_ConnLive(conn)
@@ -224,7 +226,10 @@ func VerifC06Conversation() {
 	var stream []byte
 	for i := 0; i < nm; i++ {
 		id := pool[vrt_Choose("id", len(pool))]
-		f := vGenFrame("f", id, false, 0, 0)
+		f := vGenFrame("f", id, id == 0x0102, 0, 0)
+		if id == 0x0102 {
+			f.body = []byte{1}
+		}
 		vNoSpecialChecksum(f)
 		sent = append(sent, f)
 		if perRead {
@@ -247,7 +252,7 @@ func VerifC06Conversation() {
 		if f.id != 0x0F0F {
 			handled++
 		}
-		if c06ReplyKind(f.id) != 0 {
+		if c06ReplyKind(f.id) != 0 && f.id != 0x0102 {
 			vrt_Assert(want < len(frames), "a reply is missing")
 			c06Expect(frames[want], f, uint16(want))
 			want++
@@ -257,5 +262,6 @@ func VerifC06Conversation() {
 	vrt_Assert(len(ev.reads) == handled, "each handled message must be reported to the read callback exactly once")
 	vrt_Assert(ev.writes == want, "each reply must be reported to the write callback exactly once")
 	vrt_Cover("three-replies", want >= 3)
+	vrt_Cover("unanswered-auth-in-between", nm >= 2 && sent[0].id == 0x0102 && c06ReplyKind(sent[1].id) != 0)
 	vrt_Cover("mixed", want < nm)
 }
